@@ -21,6 +21,7 @@ import (
 	"net/http"
 	"net/url"
 	"regexp"
+	"strconv"
 	"strings"
 	"time"
 
@@ -613,11 +614,146 @@ func (c *Ctx) genC12() {
 		ps = 4000
 	}
 	c.postSequences(ps)
+	c.attributeValues()
 	m := 800
 	if !c.quick() {
 		m = 20000
 	}
 	c.codecCases(m)
+}
+
+// attributeValues: "any request ID and any configuration … decodes to a well-formed message with the configured issuer,
+// destination … and the given IDs": strings the SP writes into XML *attribute* positions (InResponseTo, Destination,
+// NameID qualifiers) with every character an attribute value needs escaped or must not contain raw
+func (c *Ctx) attributeValues() {
+	now := baseTime
+	saml.TimeNow = func() time.Time { return now }
+	hostile := []string{"]]>", "a]]>b", "]]", ">", "<", "&", "&amp;", "\"", "'", "\r", "x\ry", "\r\n", "\n", "\t", " lead", "trail ", "a  b", "é€𝄞", "%5D%5D%3E", "]]>]]>"}
+	for _, h := range hostile {
+		for _, post := range []bool{false, true} {
+			ep := "https://idp.example.com/saml/sso?x=" + h
+			if _, err := url.Parse(ep); err != nil {
+				ep = "https://idp.example.com/saml/sso?x=1" // not a URL at all (control character): outside "all IdP endpoint URLs"
+			}
+			s := c.spFor(ep, ep, "sp", "", post)
+			s.EntityID = "https://sp.example.com/" + h
+			saml.RandReader = &detReader{c: c}
+			reqID := "id-" + h
+			type want struct{ kind, attr, val string }
+			var why string
+			decode := func(kind string, form []byte, u *url.URL, field string) []byte {
+				var xmlb []byte
+				var err error
+				if form != nil {
+					v, n := inputValOf(form, field)
+					if n != 1 {
+						err = fmt.Errorf("%d fields", n)
+					} else {
+						xmlb, err = base64.StdEncoding.DecodeString(v)
+					}
+				} else {
+					xmlb, err = inflateB64(u.Query().Get(field))
+				}
+				if err != nil && why == "" {
+					why = fmt.Sprintf("key=attribute-value:%s the emitted %s (binding post=%v, hostile %q) does not decode: %v", kind, kind, post, h, err)
+				}
+				return xmlb
+			}
+			check := func(kind string, xmlb []byte, get func() (string, error), wantVal, what string) {
+				if xmlb == nil || why != "" {
+					return
+				}
+				got, err := get()
+				if err != nil {
+					why = fmt.Sprintf("key=attribute-value:%s the emitted %s is not well-formed when %s is %q: %v", kind, kind, what, wantVal, err)
+				} else if got != wantVal {
+					why = fmt.Sprintf("key=attribute-value:%s %s of the emitted %s reads %q, given %q", kind, what, kind, got, wantVal)
+				}
+			}
+			impl := safely(func() string {
+				// LogoutResponse: the request ID it answers
+				{
+					var xmlb []byte
+					if post {
+						f, err := s.MakePostLogoutResponse(reqID, "rs")
+						if err != nil {
+							return "err"
+						}
+						xmlb = decode("LogoutResponse", f, nil, "SAMLResponse")
+					} else {
+						u, err := s.MakeRedirectLogoutResponse(reqID, "rs")
+						if err != nil {
+							return "err"
+						}
+						xmlb = decode("LogoutResponse", nil, u, "SAMLResponse")
+					}
+					var lr saml.LogoutResponse
+					check("LogoutResponse", xmlb, func() (string, error) { err := xml.Unmarshal(xmlb, &lr); return lr.InResponseTo, err }, reqID, "InResponseTo")
+					check("LogoutResponse", xmlb, func() (string, error) { return lr.Destination, nil }, ep, "Destination")
+				}
+				// LogoutRequest: the qualifiers of the name ID are the entity IDs
+				{
+					var xmlb []byte
+					if post {
+						f, err := s.MakePostLogoutRequest("alice", "rs")
+						if err != nil {
+							return "err"
+						}
+						xmlb = decode("LogoutRequest", f, nil, "SAMLRequest")
+					} else {
+						u, err := s.MakeRedirectLogoutRequest("alice", "rs")
+						if err != nil {
+							return "err"
+						}
+						xmlb = decode("LogoutRequest", nil, u, "SAMLRequest")
+					}
+					var lq saml.LogoutRequest
+					check("LogoutRequest", xmlb, func() (string, error) {
+						err := xml.Unmarshal(xmlb, &lq)
+						if err == nil && lq.NameID == nil {
+							err = fmt.Errorf("no NameID")
+						}
+						if err != nil {
+							return "", err
+						}
+						return lq.NameID.SPNameQualifier, nil
+					}, s.EntityID, "NameID/@SPNameQualifier")
+					check("LogoutRequest", xmlb, func() (string, error) { return lq.Destination, nil }, ep, "Destination")
+				}
+				// AuthnRequest: destination and ACS URL
+				{
+					var xmlb []byte
+					if post {
+						f, err := s.MakePostAuthenticationRequest("rs")
+						if err != nil {
+							return "err"
+						}
+						xmlb = decode("AuthnRequest", f, nil, "SAMLRequest")
+					} else {
+						u, err := s.MakeRedirectAuthenticationRequest("rs")
+						if err != nil {
+							return "err"
+						}
+						xmlb = decode("AuthnRequest", nil, u, "SAMLRequest")
+					}
+					var ar saml.AuthnRequest
+					check("AuthnRequest", xmlb, func() (string, error) { err := xml.Unmarshal(xmlb, &ar); return ar.Destination, err }, ep, "Destination")
+					check("AuthnRequest", xmlb, func() (string, error) {
+						if ar.Issuer == nil {
+							return "", fmt.Errorf("no Issuer")
+						}
+						return ar.Issuer.Value, nil
+					}, s.EntityID, "Issuer")
+				}
+				return "ok"
+			})
+			if impl != "ok" && why == "" {
+				why = "key=attribute-value:refused a message creation failed or panicked with hostile string " + strconv.Quote(h) + ": " + impl
+			}
+			c.count("c12-attribute-value-binding", map[bool]string{true: "post", false: "redirect"}[post])
+			c.emitOneWay("attrvalues", []string{encStr(h), encBool(post)}, impl, why)
+		}
+	}
 }
 
 // postSequences: "the POST form's field base64-decodes to a well-formed message with the configured issuer, destination
@@ -755,6 +891,89 @@ func (c *Ctx) genC13() {
 	}
 	c.xmlSignedMessages()
 	c.keyRotation()
+	c.artifactWire()
+}
+
+// wireRT is the IdP's artifact endpoint as the SP's HTTP client sees it. Before it reads the request body it lets the
+// same process do other work that serialises XML (as a busy server does between building a request and the transport
+// writing it out); then it checks the ArtifactResolve that actually arrives.
+type wireRT struct {
+	before func()
+	check  func(body []byte)
+}
+
+func (rt *wireRT) RoundTrip(req *http.Request) (*http.Response, error) {
+	if rt.before != nil {
+		rt.before()
+	}
+	body, _ := io.ReadAll(req.Body)
+	rt.check(body)
+	return &http.Response{StatusCode: 500, Status: "500 X", Body: io.NopCloser(strings.NewReader("no")), Header: http.Header{}, Request: req}, nil
+}
+
+// artifactWire: "for … artifact resolution as an enveloped XML signature over the emitted element" — the element as it is
+// emitted on the wire by ParseResponse(SAMLart=…), not only as MakeArtifactResolveRequest returns it
+func (c *Ctx) artifactWire() {
+	now := baseTime
+	saml.TimeNow = func() time.Time { return now }
+	for _, kc := range []struct{ key, method string }{{"sp", dsig.RSASHA256SignatureMethod}, {"sp", dsig.RSASHA1SignatureMethod}, {"ec256", dsig.ECDSASHA256SignatureMethod}, {"ec384", dsig.ECDSASHA512SignatureMethod}} {
+		for _, busy := range []string{"idle", "parse", "messages", "both"} {
+			s := c.spFor(idpEndpoints[0], idpEndpoints[0], kc.key, kc.method, true)
+			s.IDPMetadata.IDPSSODescriptors[0].ArtifactResolutionServices = []saml.Endpoint{{Binding: saml.SOAPBinding, Location: "https://idp.example.com/saml/artifact"}}
+			saml.RandReader = &detReader{c: c}
+			other := c.spFor(idpEndpoints[1], idpEndpoints[1], "rsa1024", dsig.RSASHA256SignatureMethod, true)
+			why := ""
+			seen := false
+			rt := &wireRT{check: func(body []byte) {
+				seen = true
+				doc := etree.NewDocument()
+				if err := doc.ReadFromBytes(body); err != nil || doc.Root() == nil {
+					why = "key=signed-message-on-the-wire:ArtifactResolve the request body that reaches the IdP is not well-formed XML"
+					return
+				}
+				ar := doc.Root().FindElement("//ArtifactResolve")
+				if ar == nil {
+					why = "key=signed-message-on-the-wire:ArtifactResolve the request body that reaches the IdP holds no ArtifactResolve"
+				} else if ar.FindElement("./Signature") == nil {
+					why = "key=unsigned-message:ArtifactResolve signing is configured but the ArtifactResolve on the wire carries no signature"
+				} else if err := verifyEnveloped(ar.Copy(), s.Certificate); err != nil {
+					why = "key=signed-message-on-the-wire:ArtifactResolve the enveloped signature of the ArtifactResolve that reaches the IdP does not verify under the SP certificate: " + err.Error()
+				} else if a := ar.FindElement("./Artifact"); a == nil || a.Text() != "AAQAAMFbLinlXaCM+FIxiDwGOLAy2T71gbpO7ZhNzAgEANlB90ECfpNEVLg=" {
+					why = "key=signed-message-on-the-wire:ArtifactResolve the artifact on the wire is not the one delivered"
+				}
+			}}
+			if busy != "idle" {
+				rt.before = func() {
+					safely(func() string {
+						if busy == "parse" || busy == "both" {
+							_, _ = other.ParseXMLResponse([]byte(`<samlp:Response xmlns:samlp="urn:oasis:names:tc:SAML:2.0:protocol" xmlns:saml="urn:oasis:names:tc:SAML:2.0:assertion" ID="id-unrelated" Version="2.0" IssueInstant="2024-05-17T12:30:45Z" Destination="https://sp.example.com/saml/acs"><saml:Issuer>https://idp.example.com/saml/metadata</saml:Issuer><samlp:Status><samlp:StatusCode Value="urn:oasis:names:tc:SAML:2.0:status:Success"/></samlp:Status><saml:Assertion ID="id-a" Version="2.0" IssueInstant="2024-05-17T12:30:45Z"><saml:Issuer>x</saml:Issuer></saml:Assertion></samlp:Response>`), []string{"id-1"}, mustURL(acsURL))
+						}
+						if busy == "messages" || busy == "both" {
+							_, _ = other.MakeRedirectAuthenticationRequest("unrelated")
+							_, _ = other.MakePostLogoutRequest("bob", "unrelated")
+							_, _ = other.MakeArtifactResolveRequest("another-artifact")
+						}
+						return ""
+					})
+				}
+			}
+			s.HTTPClient = &http.Client{Transport: rt}
+			impl := safely(func() string {
+				req, _ := http.NewRequest("POST", acsURL, nil)
+				req.Form = url.Values{"SAMLart": {"AAQAAMFbLinlXaCM+FIxiDwGOLAy2T71gbpO7ZhNzAgEANlB90ECfpNEVLg="}}
+				req.PostForm = req.Form
+				_, _ = s.ParseResponse(req, []string{"id-1"})
+				return "ok"
+			})
+			if impl != "ok" {
+				why = "key=signed-message-on-the-wire:ArtifactResolve artifact resolution panicked: " + impl
+			} else if !seen && why == "" {
+				why = "key=signed-message-on-the-wire:ArtifactResolve no ArtifactResolve was sent"
+			}
+			c.count("c13-artifact-wire", busy)
+			c.emitOneWay("artifactwire", []string{encStr(kc.key), encStr(busy)}, impl, why)
+		}
+	}
 }
 
 // keyRotation: "the signature the SP attaches verifies under the certificate in the SP's published metadata" — on one
